@@ -207,6 +207,10 @@ add('k1_handles', 'iter_mut_e12', 'iter_h::<E12>(true)', props=['C14'], tier='t'
 add('k1_handles', 'drain_iter_e8', 'range_iter_h::<E8>(false, false)', props=['C14', 'C02', 'C03'], tier='q', cost=15)
 add('k1_handles', 'splice_iter_e8', 'range_iter_h::<E8>(false, true)', props=['C14', 'C02'], tier='q', cost=15)
 add('k1_handles', 'drain_iter_typed_e8', 'range_iter_h::<D8>(true, false)', props=['C14', 'C02'], tier='q', cost=15)
+BNTH = 'n <= 2 skipped elements (core default Iterator::nth / nth_back loop over next())'
+add('k1_handles', 'drain_nth_e8', 'range_nth_h::<E8>(false, false)', props=['C03', 'C02', 'C14'], tier='q', kind='bounded', bound=BNTH, attrs=['#[kani::unwind(5)]'], cost=20)
+add('k1_handles', 'drain_nth_back_e8', 'range_nth_h::<E8>(false, true)', props=['C03', 'C02', 'C14'], tier='q', kind='bounded', bound=BNTH, attrs=['#[kani::unwind(5)]'], cost=20)
+add('k1_handles', 'splice_nth_e8', 'range_nth_h::<E8>(true, false)', props=['C03', 'C02'], tier='q', kind='bounded', bound=BNTH, attrs=['#[kani::unwind(5)]'], cost=20)
 add('k1_handles', 'drain_iter_e3', 'range_iter_h::<E3>(false, false)', props=['C14'], tier='t', cost=100)
 
 
